@@ -85,6 +85,7 @@ CORPUS_LIB = {"pkg": "xvlib_c03c", "enums": [], "classes": [
         {"name": "x", "decl": "param", "ty": "str", "optional": False, "default": "x0"},
         {"name": "y", "decl": "param", "ty": "str", "optional": False, "default": "y0"},
         {"name": "lf", "decl": "param", "ty": {"list": "float"}, "optional": False, "default": {"l": []}},
+        {"name": "n", "decl": "param", "ty": "int", "optional": False, "default": 12345},
     ]}]}
 
 
@@ -154,6 +155,27 @@ def run_corpus(ctx):
             ctx.monitor_fail(f"collision:{kind}", f"{a['nodes'][0]['values']} and {b['nodes'][0]['values']} share identifier {fa[0][:16]}…", {"a": a, "b": b})
         good.append(({"graph": a, "edit": {"kind": kind}}, rec))
     return good
+
+
+# integers at and beyond the edge of the 8-byte encoding (`struct.pack("!q")`): two integers congruent modulo 2**64. The source as
+# found rejects what does not fit (struct.error: no identifier, no collision); whenever BOTH members of a pair get an identifier the
+# two must differ (seeded change C03f: `!Q` of `value & 0xFFFF_FFFF_FFFF_FFFF`).
+INT_RANGE_PAIRS = [(-1, 2**64 - 1), (0, 2**64), (5, 5 + 2**64), (-(2**63), 2**63), (2**63 - 1, -(2**63) - 1), (1, 1 - 2**64),
+                   (2**62, 2**62 + 2**64), (-300, 2**64 - 300), (7, 7 + 2**65)]
+
+
+def run_intrange(ctx):
+    cases = [{"lib": 0, "steps": id_steps(_k(n=a), "A") + id_steps(_k(n=b), "B")} for a, b in INT_RANGE_PAIRS]
+    res = identlib.run_cases(ctx, [CORPUS_LIB], cases, shards=1)[None]
+    for (a, b), rec in zip(INT_RANGE_PAIRS, res):
+        ctx.case({"corpus": "int-range", "a": str(a), "b": str(b)}, True)
+        if rec["error"]:
+            ctx.count("corpus", "int-range:rejected")
+            continue
+        ctx.count("corpus", "int-range:both-hashed")
+        fa, ra, fb, rb = ids_of(rec, 1, 1)
+        if fa[0] == fb[0] or ra[0] == rb[0]:
+            ctx.monitor_fail("collision:int-range", f"n={a} and n={b} share identifier {fa[0][:16]}…", {"a": _k(n=a), "b": _k(n=b)})
 
 
 # configuration-valued defaults: `optimizer: Param[Opt] = Opt(lr=0.1)` — a parameter is outside the signature iff its value has the
@@ -284,6 +306,7 @@ def prod_part(ctx, n):
 
 def correspond(ctx):
     rng = ctx.rng
+    run_intrange(ctx)
     corpus_good = run_corpus(ctx) + prod_part(ctx, ctx.scale(24, 300))
     if common.CFG_DEFAULTS:
         corpus_good += run_cfgdefault_corpus(ctx)
@@ -320,6 +343,7 @@ def correspond(ctx):
 
 
 def search(ctx):
+    run_intrange(ctx)
     run_corpus(ctx)
     if common.CFG_DEFAULTS:
         run_cfgdefault_corpus(ctx)
